@@ -1,2 +1,2 @@
 import IstioModel.C13.Driver
-def main (_ : List String) : IO Unit := IstioModel.Wire.run ({} : IstioModel.C13.DState) IstioModel.C13.stepD
+def main (_ : List String) : IO Unit := IstioModel.Wire.run ({} : IstioModel.C13.Top) IstioModel.C13.stepD
